@@ -1398,6 +1398,7 @@ package avro
 //@   props C12
 //@   requires [C12] sregFree()
 //@   ensures [C12] sregFree()
+//@   ensures [C12] rlockframe(schemaRegistryMutex)
 //@   ensures [C15,C20] res1 == maphas(schemaRegistry, typ) && (res1 ==> sameSchema(res0, mapget(schemaRegistry, typ)))
 //@   modifies type sync.RWMutex, ghost lock.rheld
 
@@ -1436,6 +1437,7 @@ package avro
 //@   ensures [C15] !reg && k == 22 && !elemReg && rkind(relem(data(typ))) == 23 && rkind(relem(relem(data(typ)))) == 8 ==> err == nil && streq(res.Type, "union") && len(res.Union) == 2 && streq(res.Union[0].Type, "null") && streq(res.Union[1].Type, "bytes")
 //@   requires [C12] sregFree()
 //@   ensures [C12] sregFree()
+//@   ensures [C12] rlockframe(schemaRegistryMutex)
 //@   modifies type sync.RWMutex, heap cell:github.com/philpearl/avro.Schema.Type.base, heap cell:github.com/philpearl/avro.Schema.Type.off, heap cell:github.com/philpearl/avro.Schema.Type.len, ghost lock.rheld
 
 //@ func schemaForArray
@@ -1448,6 +1450,7 @@ package avro
 //@   ensures [C15] rkind(relem(data(typ))) != 8 && err == nil ==> streq(res.Type, "array") && res.Object != nil && len(res.Union) == 0
 //@   requires [C12] sregFree()
 //@   ensures [C12] sregFree()
+//@   ensures [C12] rlockframe(schemaRegistryMutex)
 //@   modifies type sync.RWMutex, heap cell:github.com/philpearl/avro.Schema.Type.base, heap cell:github.com/philpearl/avro.Schema.Type.off, heap cell:github.com/philpearl/avro.Schema.Type.len, ghost lock.rheld
 
 //@ func schemaForMap
@@ -1459,6 +1462,7 @@ package avro
 //@   ensures [C15] err == nil ==> streq(res.Type, "map") && res.Object != nil && len(res.Union) == 0
 //@   requires [C12] sregFree()
 //@   ensures [C12] sregFree()
+//@   ensures [C12] rlockframe(schemaRegistryMutex)
 //@   modifies type sync.RWMutex, heap cell:github.com/philpearl/avro.Schema.Type.base, heap cell:github.com/philpearl/avro.Schema.Type.off, heap cell:github.com/philpearl/avro.Schema.Type.len, ghost lock.rheld
 
 // field enumeration through reflect.StructField values is not modelled: trusted
@@ -1469,6 +1473,7 @@ package avro
 //@   ensures [C15] err == nil ==> streq(res.Type, "record") && res.Object != nil && len(res.Union) == 0
 //@   requires [C12] sregFree()
 //@   ensures [C12] sregFree()
+//@   ensures [C12] rlockframe(schemaRegistryMutex)
 //@   modifies type sync.RWMutex, heap cell:github.com/philpearl/avro.Schema.Type.base, heap cell:github.com/philpearl/avro.Schema.Type.off, heap cell:github.com/philpearl/avro.Schema.Type.len, ghost lock.rheld
 //@   trusted
 
@@ -1478,6 +1483,7 @@ package avro
 //@   ensures [C15] (rkind(typedesc(tag(item))) != 25 && !(rkind(typedesc(tag(item))) == 22 && rkind(relem(typedesc(tag(item)))) == 25)) ==> err != nil
 //@   requires [C12] sregFree()
 //@   ensures [C12] sregFree()
+//@   ensures [C12] rlockframe(schemaRegistryMutex)
 //@   modifies type sync.RWMutex, heap cell:github.com/philpearl/avro.Schema.Type.base, heap cell:github.com/philpearl/avro.Schema.Type.off, heap cell:github.com/philpearl/avro.Schema.Type.len, ghost lock.rheld
 
 // general unions cannot be written: the method panics unconditionally (known finding of C13/C02: a codec for such a
@@ -1611,3 +1617,16 @@ package avro
 //@   props C09, C16
 //@   ensures [C09,C16] res != nil && res.buf == buf
 //@   pure
+
+//@ func NewEncoderFor
+//@   props C09, C16, C12
+//@   requires w != nil && 0 <= approxBlockSize && len(compression) < 1<<40
+//@   requires [C12] regFree() && sregFree()
+//     C09: the encoder starts with nothing buffered, on the caller's writer, with the caller's block size
+//@   ensures [C09,C16] err == nil ==> encInv(res) && res.count == 0 && res.w == w && res.approxBlockSize == approxBlockSize && len(res.wb.buf) == 0
+//     C16: the header is written at most once, to w, and a failed header write is the error returned
+//@   ensures [C16] tlen() <= 1 && (tlen() == 1 ==> tkind(0) == evHDR && ta(0) == tag(w) && tb(0) == uint64(data(w)))
+//@   ensures [C16] tlen() == 1 && tc(0) != 0 ==> err != nil && wraps(err, ifaceof(tc(0), td(0)))
+//@   ensures [C09,C16] err == nil ==> tlen() == 1 && tc(0) == 0
+//@   modifies BH, type sync.RWMutex, heap cell:github.com/philpearl/avro.Schema.Type.base, heap cell:github.com/philpearl/avro.Schema.Type.off, heap cell:github.com/philpearl/avro.Schema.Type.len, \
+//@      heap cell:github.com/philpearl/avro.Codec.tag, heap cell:github.com/philpearl/avro.Codec.data, ghost lock.rheld
